@@ -186,4 +186,299 @@ theorem inv_cstep (cfg : Cfg) (hc : cfg.lockedWait = false) (s s' : St) (i : Nat
       apply forall_upd (P := fun k pc => cfg.n ≤ k → pc = .idle) h10
       first | (intro _; rfl) | (intro hle; have := h10 i hle; simp_all; done)⟩
 
+theorem inv_lstep (cfg : Cfg) (s s' : St) (hI : Inv cfg s) (h : lstep s = some s') : Inv cfg s' := by
+  obtain ⟨h1, h2, h3, hsm, h4, h5, h6, h7, h8, hE, hF, h9, h10⟩ := hI
+  have hcl : s.loop = .inS → ∀ k, inCS (s.cl k) = false := by
+    intro hl k
+    cases hk : inCS (s.cl k) with
+    | false => rfl
+    | true =>
+      have a := (h1 k).2 hk
+      have b := h2.2 hl
+      rw [a] at b; cases b
+  unfold lstep at h
+  split at h
+  all_goals (try split at h)
+  all_goals (first | (cases h; done) | skip)
+  all_goals (injection h with h; subst h)
+  · -- select, stop closed: return (deferred close(done))
+    exact ⟨h1, by simp_all, h3, hsm, by simp_all, h5, h6, h7, h8, fun _ => Or.inl rfl, hF, h9, h10⟩
+  · -- wantS, mu free: Lock
+    refine ⟨?_, by simp_all, h3, hsm, by simp_all, h5, h6, h7, h8, ?_, hF, h9, h10⟩
+    · intro k
+      have := h1 k
+      simp_all
+    · intro hs; rcases hE hs with hl | hx
+      · simp_all
+      · exact Or.inr hx
+  · -- inS: flush, Unlock, back to the select
+    refine ⟨?_, by simp_all, h3, hsm, by simp_all, h5, h6, h7, h8, ?_, ?_, h9, h10⟩
+    · intro k
+      have := hcl (by assumption) k
+      simp_all
+    · intro hs; rcases hE hs with hl | hx
+      · simp_all
+      · exact Or.inr hx
+    · intro _; left; exact h9
+
+theorem inv_tick (cfg : Cfg) (s : St) (hI : Inv cfg s) (hl : s.loop = .select) : Inv cfg { s with loop := .wantS } := by
+  obtain ⟨h1, h2, h3, hsm, h4, h5, h6, h7, h8, hE, hF, h9, h10⟩ := hI
+  refine ⟨h1, by simp_all, h3, hsm, by simp_all, h5, h6, h7, h8, ?_, hF, h9, h10⟩
+  intro hs; rcases hE hs with hl' | hx
+  · simp_all
+  · exact Or.inr hx
+
+theorem inv_start (cfg : Cfg) (s s' : St) (i : Nat) (pc : CPc) (hI : Inv cfg s)
+    (hpc : pc = .wantW ∨ pc = .wantS ∨ pc = .wantM) (h : start cfg s i pc = some s') : Inv cfg s' := by
+  obtain ⟨h1, h2, h3, hsm, h4, h5, h6, h7, h8, hE, hF, h9, h10⟩ := hI
+  unfold start at h
+  split at h
+  · rename_i hc
+    injection h with h; subst h
+    have hcs : inCS pc = false := by rcases hpc with rfl | rfl | rfl <;> rfl
+    have hhm : holdsM pc = false := by rcases hpc with rfl | rfl | rfl <;> rfl
+    have hnb : pc ≠ .inTwait := by rcases hpc with rfl | rfl | rfl <;> simp
+    have hnw : ¬ W pc := by rcases hpc with rfl | rfl | rfl <;> simp [W]
+    refine ⟨lock_keep h1 (by simp [hc.1, hcs]), h2, forall_upd (P := fun _ pc => pc ≠ .inTwait) h3 hnb,
+      fun hs => lock_keep (hsm hs) (by simp [hc.1, hhm]), h4, h5, h6, h7,
+      waiting_upd (st := s.stopped) h8 id (fun hv => absurd hv hnw), ?_, ?_, h9, ?_⟩
+    · intro hs; rcases hE hs with hl | hx
+      · exact Or.inl hl
+      · exact Or.inr (exists_upd (Q := fun pc => pc = .waitDone) hx (by simp [hc.1]))
+    · intro hs; rcases hF hs with hl | hx
+      · exact Or.inl hl
+      · exact Or.inr (exists_upd (Q := W) hx (by simp [hc.1, W]))
+    · apply forall_upd (P := fun k pc => cfg.n ≤ k → pc = .idle) h10
+      intro hle; exact absurd hc.2 (Nat.not_lt.mpr hle)
+  · cases h
+
+theorem inv_step (cfg : Cfg) (hc : cfg.lockedWait = false) (s s' : St) (a : Act) (hI : Inv cfg s)
+    (h : step cfg s a = some s') : Inv cfg s' := by
+  cases a with
+  | write i => exact inv_start cfg s s' i _ hI (Or.inl rfl) h
+  | sync i => exact inv_start cfg s s' i _ hI (Or.inr (Or.inl rfl)) h
+  | stop i => exact inv_start cfg s s' i _ hI (Or.inr (Or.inr rfl)) h
+  | client i => exact inv_cstep cfg hc s s' i hI h
+  | tick =>
+    simp only [step] at h
+    split at h
+    · injection h with h; subst h; exact inv_tick cfg s hI (by assumption)
+    · cases h
+  | loop => exact inv_lstep cfg s s' hI h
+
+theorem inv_run (cfg : Cfg) (hc : cfg.lockedWait = false) (acts : List Act) :
+    ∀ s s', Inv cfg s → runActs cfg s acts = some s' → Inv cfg s' := by
+  induction acts with
+  | nil => intro s s' hI h; simp only [runActs] at h; injection h with h; subst h; exact hI
+  | cons a as ih =>
+    intro s s' hI h
+    simp only [runActs] at h
+    cases hs : step cfg s a with
+    | none => rw [hs] at h; cases h
+    | some t => rw [hs] at h; exact ih t s' (inv_step cfg hc s t a hI hs) h
+
+theorem inv_reach (cfg : Cfg) (hc : cfg.lockedWait = false) (s : St) (h : Reach cfg s) : Inv cfg s := by
+  obtain ⟨acts, ha⟩ := h
+  exact inv_run cfg hc acts _ _ (inv_init cfg) ha
+
+/-! ### reachability is closed under steps; clients beyond `cfg.n` never start (any variant) -/
+
+theorem runActs_append (cfg : Cfg) (a b : List Act) : ∀ s, runActs cfg s (a ++ b) =
+    match runActs cfg s a with
+    | some t => runActs cfg t b
+    | none => none := by
+  induction a with
+  | nil => intro s; rfl
+  | cons x xs ih =>
+    intro s
+    simp only [List.cons_append, runActs]
+    cases step cfg s x with
+    | none => rfl
+    | some t => exact ih t
+
+theorem reach_run (cfg : Cfg) (s s' : St) (acts : List Act) (h : Reach cfg s) (hr : runActs cfg s acts = some s') :
+    Reach cfg s' := by
+  obtain ⟨a0, h0⟩ := h
+  exact ⟨a0 ++ acts, by rw [runActs_append, h0]; exact hr⟩
+
+theorem reach_step (cfg : Cfg) (s s' : St) (a : Act) (h : Reach cfg s) (hs : step cfg s a = some s') : Reach cfg s' :=
+  reach_run cfg s s' [a] h (by simp [runActs, hs])
+
+theorem cstep_idle (cfg : Cfg) (s : St) (i : Nat) (h : s.cl i = .idle) : cstep cfg s i = none := by
+  simp [cstep, h]
+
+/-- a client step changes only that client's pc -/
+theorem cstep_cl (cfg : Cfg) (s s' : St) (i : Nat) (h : cstep cfg s i = some s') :
+    ∃ v, s'.cl = upd s.cl i v := by
+  unfold cstep at h
+  split at h
+  all_goals (try split at h)
+  all_goals (try split at h)
+  all_goals (first | (cases h; done) | skip)
+  all_goals (injection h with h; subst h; exact ⟨_, rfl⟩)
+
+theorem bound_step (cfg : Cfg) (s s' : St) (a : Act) (hb : ∀ i, cfg.n ≤ i → s.cl i = .idle)
+    (h : step cfg s a = some s') : ∀ i, cfg.n ≤ i → s'.cl i = .idle := by
+  have hstart : ∀ i pc, start cfg s i pc = some s' → ∀ k, cfg.n ≤ k → s'.cl k = .idle := by
+    intro i pc h k hk
+    unfold start at h
+    split at h
+    · rename_i hc
+      injection h with h; subst h
+      have : k ≠ i := by omega
+      simp only [upd_other _ _ this]; exact hb k hk
+    · cases h
+  cases a with
+  | write i => exact hstart i _ h
+  | sync i => exact hstart i _ h
+  | stop i => exact hstart i _ h
+  | client i =>
+    intro k hk
+    obtain ⟨v, hv⟩ := cstep_cl cfg s s' i h
+    by_cases hki : k = i
+    · subst hki
+      have := cstep_idle cfg s k (hb k hk)
+      simp only [step] at h; rw [this] at h; cases h
+    · rw [hv, upd_other _ _ hki]; exact hb k hk
+  | tick =>
+    simp only [step] at h
+    split at h
+    · injection h with h; subst h; exact hb
+    · cases h
+  | loop =>
+    simp only [step, lstep] at h
+    split at h
+    all_goals (try split at h)
+    all_goals (first | (cases h; done) | skip)
+    all_goals (injection h with h; subst h; exact hb)
+
+theorem bound_reach (cfg : Cfg) (s : St) (h : Reach cfg s) : ∀ i, cfg.n ≤ i → s.cl i = .idle := by
+  obtain ⟨acts, ha⟩ := h
+  have key : ∀ (acts : List Act) (s s' : St), (∀ i, cfg.n ≤ i → s.cl i = .idle) → runActs cfg s acts = some s' →
+      ∀ i, cfg.n ≤ i → s'.cl i = .idle := by
+    intro acts
+    induction acts with
+    | nil => intro s s' hb h; simp only [runActs] at h; injection h with h; subst h; exact hb
+    | cons a as ih =>
+      intro s s' hb h
+      simp only [runActs] at h
+      cases hs : step cfg s a with
+      | none => rw [hs] at h; cases h
+      | some t => rw [hs] at h; exact ih t s' (bound_step cfg s t a hb hs) h
+  exact key acts _ _ (fun _ _ => rfl) ha
+
+/-! ### progress: the repaired protocol cannot get stuck -/
+
+theorem cstep_some_cs (cfg : Cfg) (s : St) (i : Nat) (h : inCS (s.cl i) = true) (hn : s.cl i ≠ .inTwait) :
+    (cstep cfg s i).isSome = true := by
+  cases hpc : s.cl i <;> simp [hpc] at h hn <;> simp only [cstep, hpc]
+  all_goals (try rfl)
+  split
+  · rfl
+  · split <;> rfl
+
+theorem cstep_some_want (cfg : Cfg) (s : St) (i : Nat) (hf : s.mu = .free)
+    (h : s.cl i = .wantW ∨ s.cl i = .wantS ∨ s.cl i = .wantT ∨ s.cl i = .wantF) : (cstep cfg s i).isSome = true := by
+  rcases h with h | h | h | h <;> simp [cstep, h, hf]
+
+theorem cstep_some_relM (cfg : Cfg) (s : St) (i : Nat) (h : s.cl i = .relM) : (cstep cfg s i).isSome = true := by
+  simp [cstep, h]
+
+theorem cstep_some_waitDone (cfg : Cfg) (s : St) (i : Nat) (h : s.cl i = .waitDone) (hl : s.loop = .finished) :
+    (cstep cfg s i).isSome = true := by
+  simp [cstep, h, hl]
+
+theorem cstep_some_wantM (cfg : Cfg) (s : St) (i : Nat) (h : s.cl i = .wantM)
+    (hm : cfg.serialStop = false ∨ s.smu = none) : (cstep cfg s i).isSome = true := by
+  simp only [cstep, h]
+  rcases hm with hm | hm
+  · simp [hm]
+  · split <;> simp [hm]
+
+/-- **progress**: in every reachable state of the repaired protocol that is not quiescent, some goroutine can take a
+    step without any new call or tick arriving -/
+theorem progress (cfg : Cfg) (hc : cfg.lockedWait = false) (s : St) (hI : Inv cfg s) (hq : ¬ Quiescent s) :
+    ∃ a, a.internal = true ∧ (step cfg s a).isSome = true := by
+  obtain ⟨h1, h2, h3, hsm, h4, h5, h6, h7, h8, hE, hF, h9, h10⟩ := hI
+  cases hmu : s.mu with
+  | client i =>
+    exact ⟨.client i, rfl, cstep_some_cs cfg s i ((h1 i).1 hmu) (h3 i)⟩
+  | loop =>
+    have hl := h2.1 hmu
+    exact ⟨.loop, rfl, by simp [step, lstep, hl]⟩
+  | free =>
+    by_cases hlw : s.loop = .wantS
+    · exact ⟨.loop, rfl, by simp [step, lstep, hlw, hmu]⟩
+    by_cases hls : s.loop = .select ∧ s.stopClosed = true
+    · exact ⟨.loop, rfl, by simp [step, lstep, hls.1, hls.2]⟩
+    have hli : s.loop ≠ .inS := by
+      intro hl; have := h2.2 hl; rw [hmu] at this; cases this
+    -- the flush goroutine is at rest, so some client is mid-call
+    have hne : ∃ i, s.cl i ≠ .idle := by
+      apply Classical.byContradiction
+      intro hall
+      apply hq
+      refine ⟨fun i => Classical.byContradiction fun hi => hall ⟨i, hi⟩, ?_⟩
+      cases hl : s.loop with
+      | none_ => exact Or.inl rfl
+      | select =>
+        refine Or.inr (Or.inl ⟨rfl, ?_⟩)
+        cases hsc : s.stopClosed with
+        | false => rfl
+        | true => exact absurd ⟨hl, hsc⟩ hls
+      | wantS => exact absurd hl hlw
+      | inS => exact absurd hl hli
+      | finished => exact Or.inr (Or.inr rfl)
+    by_cases hw : ∃ k, s.cl k = .wantW ∨ s.cl k = .wantS ∨ s.cl k = .wantT ∨ s.cl k = .wantF
+    · obtain ⟨k, hk⟩ := hw
+      exact ⟨.client k, rfl, cstep_some_want cfg s k hmu hk⟩
+    by_cases hr : ∃ k, s.cl k = .relM
+    · obtain ⟨k, hk⟩ := hr
+      exact ⟨.client k, rfl, cstep_some_relM cfg s k hk⟩
+    have hnocs : ∀ k, inCS (s.cl k) = false := by
+      intro k
+      cases hk : inCS (s.cl k) with
+      | false => rfl
+      | true => have := (h1 k).2 hk; rw [hmu] at this; cases this
+    by_cases hwd : ∃ k, s.cl k = .waitDone
+    · obtain ⟨k, hk⟩ := hwd
+      have hst := h8 k (Or.inl hk)
+      have hcl : s.stopClosed = true := by rw [h6]; exact hst
+      have hin := h5 hst
+      have hlf : s.loop = .finished := by
+        cases hl : s.loop with
+        | none_ => have := h4.1 hl; rw [hin] at this; cases this
+        | select => exact absurd ⟨hl, hcl⟩ hls
+        | wantS => exact absurd hl hlw
+        | inS => exact absurd hl hli
+        | finished => rfl
+      exact ⟨.client k, rfl, cstep_some_waitDone cfg s k hk hlf⟩
+    -- every client in a call is waiting for stopMu, which nobody holds
+    obtain ⟨i, hi⟩ := hne
+    have hwm : ∀ k, s.cl k = .idle ∨ s.cl k = .wantM := by
+      intro k
+      have a := hnocs k
+      have b := h3 k
+      cases hk : s.cl k <;> simp [hk] at a b ⊢
+      · exact hw ⟨k, Or.inl hk⟩
+      · exact hw ⟨k, Or.inr (Or.inl hk)⟩
+      · exact hw ⟨k, Or.inr (Or.inr (Or.inl hk))⟩
+      · exact hwd ⟨k, hk⟩
+      · exact hw ⟨k, Or.inr (Or.inr (Or.inr hk))⟩
+      · exact hr ⟨k, hk⟩
+    have him : s.cl i = .wantM := by
+      rcases hwm i with h | h
+      · exact absurd h hi
+      · exact h
+    refine ⟨.client i, rfl, cstep_some_wantM cfg s i him ?_⟩
+    cases hss : cfg.serialStop with
+    | false => exact Or.inl rfl
+    | true =>
+      right
+      cases hsmu : s.smu with
+      | none => rfl
+      | some j =>
+        have := (hsm hss j).1 hsmu
+        rcases hwm j with h | h <;> simp [h] at this
+
 end ZapVerif.BwsConc
